@@ -1,6 +1,6 @@
 SPECIFICATION Spec
 CONSTANTS
-  Encs = {"xor", "xor2"}
+  Encs = {"xor", "xor2", "xor2n"}
   TC2 = {"d1", "dsmall", "dbig", "dhuge"}
   TCn = {"z", "s", "p13", "n13", "p14", "n14", "p17", "n17", "p20", "n20", "hugep", "hugen"}
   VCs = {"same", "reuse", "newwin", "stale", "full64", "lead32", "nan2", "negzero", "inf", "rand"}
